@@ -31,7 +31,7 @@ RULE = ("each run draws a spin-doubled random Hermitian system (exact twofold de
         "injected fault). distinct = hash of (system, k, G, grid, calculators, gauge seeds); non-trivial = at least one "
         "degenerate block was actually rotated")
 PROBES = ["gauge_blocks_rotated", "gauge_runs", "gauge_fault_not_fired", "evaluate_k_compared", "run_compared",
-          "vacuous_outputs", "periodicity_compared", "tabulated_compared"]
+          "vacuous_outputs", "periodicity_compared", "tabulated_compared", "kramers_system", "tetra_run"]
 REAL = ["Data_K / Data_K_R (random_gauge, UU_K, degen)", "evaluate_k", "formula.covariant / Formula_ln.trace", "static calculators",
         "Tabulators", "run_grid.run"]
 STUB = ["numpy global RNG seeded by the simulator; scipy.stats.unitary_group.rvs wrapped to count rotated blocks"]
@@ -44,8 +44,8 @@ ASSUMPTIONS = [
 QNAMES = ["energy", "band_gradients", "berry_curvature", "berry_curvature_internal_terms", "berry_curvature_external_terms", "spin"]
 
 
-def _calcs(names, Ef, tab):
-    c = zoo.real_calculators(names, Ef)
+def _calcs(names, Ef, tab, tetra=False):
+    c = zoo.real_calculators(names, Ef, tetra=tetra)
     if tab:
         c["tabulate"] = zoo.real_tabulators(["Energy", "berry", "vel", "spin"], mode="grid")
     return c
@@ -64,7 +64,21 @@ def _simulate(dec, rec, tier, scr):
     kw = dict(num_wann=nw, nRvec=6 + dec("sys/nR", 6), max_R=2, berry=True, morb=morb)
     system = zoo.make_random_system(seed, double_spin=True, random_spin=True, **kw)
     parent = zoo.make_random_system(seed, double_spin=False, spin=False, **kw)
+    # second system class: a time-reversal symmetric spinful Hamiltonian (H_R = T H_R^* T^-1, T = i sigma_y K): Kramers pairs
+    # at the time-reversal invariant momenta ONLY, so that a degenerate multiplet at a grid point splits at the corners
+    # of its cell (what the tetrahedron method looks at) and at the neighbouring k-points
+    kramers = bool(dec.chance("sys/kramers", 1, 3))
+    if kramers:
+        rec.fire("kramers_system")
+        T = np.kron(np.eye(nw), np.array([[0, 1], [-1, 0]]))
+        rs = np.random.RandomState(seed + 31)
+        shape = system.get_R_mat("Ham").shape
+        X = rs.random_sample(shape) + 1j * rs.random_sample(shape) - 0.5 - 0.5j
+        X = 0.5 * (X + np.einsum("ab,Rbc,dc->Rad", T, X.conj(), T))
+        system.set_R_mat("Ham", X, Hermitian=True, reset=True)
     k = np.array([0.01 * (1 + dec(f"k/{i}", 98)) + 0.0037 for i in range(3)])
+    if kramers and dec.chance("k/trim", 1, 2):
+        k = np.array([0.5 * dec(f"k/trim/{i}", 2) for i in range(3)])
     G = np.array([dec(f"G/{i}", 5) - 2 for i in range(3)])
     nq = 1 + dec("q/n", len(QNAMES))
     qs = sorted({QNAMES[dec(f"q/{i}", len(QNAMES))] for i in range(nq)} | {"energy"})
@@ -73,12 +87,19 @@ def _simulate(dec, rec, tier, scr):
     tab = bool(dec.chance("calc/tab", 1, 2))
     NKdiv = [[2, 1, 3][dec(f"grid/div/{i}", 3)] for i in range(3)]
     NKFFT = [[2, 1, 3][dec(f"grid/fft/{i}", 3)] for i in range(3)]
+    if kramers:      # an even grid contains all eight time-reversal invariant momenta
+        NKdiv = [[2, 1][dec(f"grid/div/{i}", 2)] for i in range(3)]
+        NKFFT = [2 if d == 1 else [1, 2][dec(f"grid/fft/{i}", 2)] for i, d in enumerate(NKdiv)]
+    tetra = bool(dec.chance("calc/tetra", 1, 3))
+    if tetra:
+        rec.fire("tetra_run")
     m = 1 + dec("gauge/m", 3)
-    Ef = zoo.fermi_grid(4, -1.0, 3.0)
+    lo = [-1.0, -0.6, -0.3, 0.0, 0.3, -1.5][dec("calc/Ef_lo", 6)]
+    Ef = zoo.fermi_grid(4 + dec("calc/nEf", 3), lo, lo + [4.0, 1.0, 0.6][dec("calc/Ef_span", 3)])
     sample = dict(num_wann=2 * nw, morb=morb, k=k.tolist(), G=G.tolist(), quantities=qs, calculators=cset, tabulate=tab,
-                  NKdiv=NKdiv, NKFFT=NKFFT, gauge_runs=m)
+                  NKdiv=NKdiv, NKFFT=NKFFT, gauge_runs=m, kramers=kramers, tetra=tetra)
     base = dict(sample=sample, counters={}, real=REAL, stub=STUB, vtime=0.0)
-    hist = [seed, nw, morb, k.tolist(), G.tolist(), qs, cset, tab, NKdiv, NKFFT]
+    hist = [seed, nw, morb, k.tolist(), G.tolist(), qs, cset, tab, NKdiv, NKFFT, kramers, tetra]
 
     def finish(viol=None, nontrivial=True):
         sig = hashlib.blake2b(repr(hist).encode(), digest_size=8).hexdigest()
@@ -104,7 +125,7 @@ def _simulate(dec, rec, tier, scr):
             out["ekG"] = wb.evaluate_k(sys_, k=tuple(k + G), quantities=names, return_single_as_dict=True, parameters_K=pk)
             grid = wb.Grid(system=sys_, NKdiv=NKdiv, NKFFT=NKFFT, use_symmetry=False)
             cnames = [c for c in cset if with_spin or c != "spin"]
-            calcs = _calcs(cnames, Ef, tab)
+            calcs = _calcs(cnames, Ef, tab, tetra)
             if not with_spin and tab:
                 calcs["tabulate"] = zoo.real_tabulators(["Energy", "berry", "vel"], mode="grid")
             res = wb.run(sys_, grid, calcs, parallel=False, use_irred_kpt=False, symmetrize=False,
